@@ -43,10 +43,13 @@ def oracle(o):
     why = []
     if o["crashed"]:
         return ["a panic inside the job was not contained: %s" % (o.get("detail", "")[:300] or "the scheduler process died")]
-    full = 1 + min(budget, fails_before(sc))
+    full = 1 + (budget if sp.get("forever") else min(budget, fails_before(sc)))
     if o["cancel"] == "none":
         if n != full:
             why.append("%d attempts were made, 1 + min(MaxRetries=%d, %d failures before the first non-failure) = %d" % (n, sp["maxr"], fails_before(sc), full))
+    elif o["cancel"] == "zero_interval":
+        if o.get("attempts_after_stop"):
+            why.append("RetryInterval 0: %d attempt(s) were started more than 50 ms after Stop() although the job's context was cancelled" % o["attempts_after_stop"])
     elif o["cancel"] == "precancelled":
         if n != 1:
             why.append("%d attempts although the context was cancelled before the call" % n)
